@@ -18,7 +18,7 @@ RULE = ("kinds: (identity) a run with an update function returning its inputs vs
         "data + lambda*regulariser with lambda changed, or f_A + x'Qx/2 with Q indefinite sized so that a fraction of the stored pairs lose "
         "curvature; box QP based, n 2..8, maxcor 1..6. Monitors after the switch: (ii) pairs of every later state are bit-exact differences "
         "of grad f_B at retained visited iterates, in order, each with s.y > eps*y.y, and the chain ends at the current x; (iii) the next "
-        "iterate equals the first iterate of a restart on f_B from the callback state of the switch iteration. Non-trivial = switch after "
+        "iterate equals the first iterate of a restart on f_B from the callback state of the switch iteration; (switch_fd) the same with finite-difference gradient modes (3-point, cs, 2-point, None) on a box whose corners are tried repeatedly, the objective redefined through args: states after the switch carry fun == f_B(x) bit for bit and the derivative of f_B, the next iterate equals that of a restart on f_B. Non-trivial = switch after "
         "which >=1 stored pair was dropped; distinct = distinct specs")
 ASSUMPTIONS = [
     "the harness's update function rewrites every stored gradient with the exact gradient of f_B at the stored point (times 1: no scaler)",
@@ -31,7 +31,7 @@ CMP = ("x", "fun", "jac", "nfev", "njev", "nit", "message", "sk", "yk")
 
 def floors(tier):
     return {"identity_pairs_compared": 60, "switch_runs": 250, "post_switch_states_checked": 800, "switches_dropping_pairs": 40,
-            "switches_newest_pair_rejected": 5, "restart_equivalence_checked": 250, "initial_call_rewrites_on_restart": 100, "redefinitions_written_in_place_and_with_new_arrays_compared": 100, "switch_runs_traced_through_a_logger": 100, "filter_calls_on_histories_of_12_to_45_pairs": 300, "pairs_of_zero_iteration_continuations_checked": 60, "switch_runs_with_new_objective_undefined_at_an_old_iterate": 40, "switch_runs_with_inert_differencing_step": 100, "__nontrivial__": 40}
+            "switches_newest_pair_rejected": 5, "restart_equivalence_checked": 250, "initial_call_rewrites_on_restart": 100, "redefinitions_written_in_place_and_with_new_arrays_compared": 100, "switch_runs_traced_through_a_logger": 100, "filter_calls_on_histories_of_12_to_45_pairs": 300, "pairs_of_zero_iteration_continuations_checked": 60, "switch_runs_with_new_objective_undefined_at_an_old_iterate": 40, "switch_runs_with_inert_differencing_step": 100, "fd_switch_runs": 100, "fd_post_switch_states_checked": 100, "fd_continuations_compared_with_restart": 30, "__nontrivial__": 40}
 
 
 def cases(tier, seed):
@@ -100,6 +100,10 @@ def cases(tier, seed):
         yield {"kind": "switch_at_solution", "problem": ps, "maxcor": int(rng.integers(1, 7)), "maxiter": int(rng.integers(3, 12)),
                "variant": gen.pick(rng, ["rescale", "reg", "reg", "reg"]), "vseed": int(rng.integers(0, 2**31 - 1)), "strength": float(rng.uniform(0.3, 3.0)),
                "rewrite": gen.pick(rng, ["new_deque", "same_deque", "same_arrays"])}
+    for i in range(240 if tier == "quick" else 8000):
+        # finite-difference modes with an objective redefined through args; corners and faces of the box are tried repeatedly
+        yield {"kind": "switch_fd", "n": int(rng.integers(2, 5)), "jac": ["3-point", "cs", "2-point", None][i % 4], "switch_at": int(rng.integers(1, 4)),
+               "maxcor": int(rng.integers(1, 6)), "vseed": int(rng.integers(0, 2**31 - 1))}
     nr = 200 if tier == "quick" else 8000
     for i in range(nr):
         ps = gen.rand_spec(rng, ("qp", "qp_quartic"), nmax=8, nmin=2, boxes=("none", "mixed", "boxed", "lower"),
@@ -698,8 +702,115 @@ def run_switch_at_solution(spec, out):
     out.sample = dict(spec=spec, nit=int(ref.snap["nit"]))
 
 
+# ---------------------------------------------------------------------------
+def run_switch_fd(spec, out):
+    """Finite-difference gradient modes with an objective redefined (through a parameter object in args) by the update function. The box
+    is [0,4]^n and the regularisation target lies outside it, so line searches try box corners / faces repeatedly: trial points
+    bit-identical to points differentiated under the old definition. Monitors: (a) every state handed to the callback after the switch
+    and the result carry fun == f_new(x) bit for bit and a gradient that is the derivative of f_new at x to differencing accuracy;
+    (b) the next iterate equals (1e-6) the first iterate of a fresh run restarted on f_new from the kept state of the switch iteration."""
+    from lbfgsb import minimize_lbfgsb
+
+    rng = np.random.default_rng(int(spec["vseed"]))
+    n = int(spec["n"])
+    lb, ub = np.zeros(n), np.full(n, 4.0)
+    a = rng.uniform(0.5, 3.5, n)
+    t = rng.uniform(6.0, 12.0, n) * np.where(rng.random(n) < 0.3, -0.5, 1.0)
+    pA = {"k": float(rng.uniform(2.0, 8.0)), "w": 0.0}
+    pB = {"k": float(gen.pick(rng, [0.0, 0.0, 0.5])), "w": float(rng.uniform(0.02, 0.5))}
+    jac = spec["jac"]
+
+    def fun(x, p):
+        return 0.5 * p["k"] * np.sum((x - a) ** 2) + 0.5 * p["w"] * np.sum((x - t) ** 2)
+
+    def gex(x, p):
+        return p["k"] * (x - a) + p["w"] * (x - t)
+
+    def go(x0, p, checkpoint, n_iter, switch_at):
+        seen, cnt = [], {"n": 0, "switched_with": None}
+
+        def ufd(x, f0, f0_old, grad, X, G):
+            j = cnt["n"]
+            cnt["n"] += 1
+            if switch_at is not None and j == switch_at:
+                p.update(pB)
+                cnt["switched_with"] = len(X)
+                xo = np.array(X[-1], copy=True) if len(X) else np.array(x, copy=True)
+                return fun(np.array(x, copy=True), p), fun(xo, p), gex(np.array(x, copy=True), p), deque([gex(np.array(xi, copy=True), p) for xi in X])
+            return f0, f0_old, grad, G
+
+        def cb(xk, state):
+            seen.append((np.array(xk, copy=True), state, dict(p)))
+            return len(seen) >= n_iter
+
+        old = np.seterr(all="ignore")
+        try:
+            res = minimize_lbfgsb(x0=np.array(x0, copy=True), fun=fun, args=(p,), jac=jac, bounds=np.array([lb, ub]).T, update_fun_def=ufd, checkpoint=checkpoint,
+                                  callback=cb, ftol=0.0, gtol=0.0, maxiter=30, maxcor=int(spec["maxcor"]))
+        finally:
+            np.seterr(**old)
+        return seen, res, cnt
+
+    name = f"finite-difference switch jac={jac!r} n={n} switch at call {spec['switch_at']} vseed={spec['vseed']}"
+    tags = dict(kind="switch_fd", jac=str(jac))
+    x0 = np.where(rng.random(n) < 0.5, 0.0, rng.uniform(0.0, 4.0, n))
+    out.count("fd_switch_runs")
+    try:
+        seen, res, cnt = go(x0, dict(pA), None, int(spec["switch_at"]) + 2, int(spec["switch_at"]))
+    except Exception as e:  # noqa
+        out.violate("switch_run_raised", f"{name}: {e!r}", exc=type(e).__name__, **tags)
+        return
+    if cnt["switched_with"] is None or len(seen) < int(spec["switch_at"]) + 1:
+        out.count("switch_never_reached")
+        return
+    k = int(spec["switch_at"])  # the callback of iteration k (1-based) is the first after the switch made at call k (k=0: before iteration 1)
+    post = seen[max(k - 1, 0):]
+    tol = 1e-5
+    for xk, st, pp in post + [(np.asarray(res.x, dtype=float), res, dict(pB))]:
+        out.count("fd_post_switch_states_checked")
+        fx = fun(np.array(st.x, dtype=float, copy=True), pp)
+        if not float(st.fun) == float(fx):
+            out.violate("fd_state_value_is_of_the_old_objective", f"{name}: a state after the switch carries fun={float(st.fun)!r} at its x, the redefined objective gives "
+                        f"{float(fx)!r} there (the old definition gives {float(fun(np.array(st.x, dtype=float, copy=True), pA))!r})", **tags)
+            return
+        ge = gex(np.asarray(st.x, dtype=float), pp)
+        if not np.all(np.abs(np.asarray(st.jac, dtype=float) - ge) <= tol * (1.0 + np.abs(ge))):
+            out.violate("fd_state_gradient_is_of_the_old_objective", f"{name}: a state after the switch carries a gradient that differs from the derivative of the redefined "
+                        f"objective at its x by {float(np.max(np.abs(np.asarray(st.jac, dtype=float) - ge))):.3e}", **tags)
+            return
+    if k >= 1 and len(seen) >= k + 1:
+        xk, stk, _pp = seen[k - 1]
+        x_next = seen[k][0]
+        if probes.grazes_bound(np.asarray(stk.x, dtype=float), lb, ub) or probes.grazes_bound(x_next, lb, ub):
+            out.count("fd_continuations_not_judged_grazing_a_bound")
+            return
+        try:
+            seen2, _res2, _c2 = go(np.asarray(stk.x, dtype=float), dict(pB), stk, 1, None)
+        except Exception as e:  # noqa
+            out.violate("switch_run_raised", f"{name}: restart from the kept state of the switch iteration raised {e!r}", exc=type(e).__name__, **tags)
+            return
+        if not seen2:
+            out.count("fd_restart_made_no_iteration")
+            return
+        out.count("fd_continuations_compared_with_restart")
+        d = float(np.max(np.abs(seen2[0][0] - x_next)))
+        out.maxi("fd_continuation_max_difference", d)
+        if not d <= 1e-6 * max(1.0, float(np.max(np.abs(x_next)))):
+            out.violate("continuation_differs_from_restart_on_new_objective", f"{name}: the iterate after the switch iteration is {x_next!r}; a fresh run restarted on the "
+                        f"redefined objective from the kept state of that iteration goes to {seen2[0][0]!r} (differs by {d:.3e})", **tags)
+            return
+        out.nontrivial = True
+    out.sample = dict(spec=spec)
+
+
 def run(spec):
     out = Outcome()
+    if spec["kind"] == "switch_fd":
+        run_switch_fd(spec, out)
+        out.key = f"switch_fd/{spec['jac']}/{spec['vseed']}/{spec['switch_at']}"
+        if out.sample is None:
+            out.sample = dict(spec=spec)
+        return out
     if spec["kind"] == "switch_at_solution":
         run_switch_at_solution(spec, out)
         out.key = f"switch_at_solution/{spec['problem']['seed']}/{spec['vseed']}"
